@@ -74,7 +74,15 @@ func histPlans(prop, tier string) []histPlan {
 		ps = append(ps, histPlan{nsqd.HistCfg{MemQ: 1, MaxBytes: 64, MaxMsgs: 3, Chans: 1, Cons: 1, Restart: true, TightMax: true}, d - 1})
 	case "C03":
 		ps = append(ps, histPlan{nsqd.HistCfg{MemQ: 8, MaxMsgs: 3, Chans: 1, Cons: 2}, d})
-		ps = append(ps, histPlan{nsqd.HistCfg{MemQ: 8, MaxMsgs: 3, Chans: 1, Cons: 2, Buffered: true}, d})
+		// (consumers with the default output buffering: the ledger learns of a send only when
+		// its frame arrives, and a frame of a redelivery can sit in the buffer past the next
+		// events; beyond six events the ledger's own picture can fall behind the daemon's - a
+		// limit of the oracle, not of nsqd - so this configuration stays at depth 6 in both tiers)
+		bd := d
+		if bd > 6 {
+			bd = 6
+		}
+		ps = append(ps, histPlan{nsqd.HistCfg{MemQ: 8, MaxMsgs: 3, Chans: 1, Cons: 2, Buffered: true}, bd})
 		ps = append(ps, histPlan{nsqd.HistCfg{MemQ: 0, MaxBytes: 64, MaxMsgs: 3, Chans: 1, Cons: 1}, d})
 		ps = append(ps, histPlan{nsqd.HistCfg{MemQ: 8, MaxMsgs: 2, Chans: 1, Cons: 1, Restart: true}, d - 1})
 		// the topology-aware-consumption experiment: deliveries over the zone / region hand-off
